@@ -48,6 +48,8 @@ def setup(rep, tier):
     rep.minimum('R20.4', 3)
     rep.minimum('R20.5', 1)
     rep.minimum('R20.6', 1)
+    rep.minimum('R20.7', 2)
+    rep.minimum('R20.8', 1)
 
 
 def single(v):
@@ -466,7 +468,120 @@ def r20_5(rep, prog):
                                         'data = NULL: %d, frame_size limited by st->frame_size: %d' % (len(nulls), len(lim)), **({} if ok else {'key': 'dec-dtx'}))
 
 
+# ------------------------------------------------------------------ R20.7 / R20.8
+def r20_7(rep, prog):
+    """the digital-silence detector scans every input channel: each call that passes the encoder's input PCM
+    passes the encoder's channel count (the interleave of that buffer), not the number of channels coded"""
+    n = 0
+    for f in prog.functions_all:
+        if not f.file.startswith('src/'):
+            continue
+        for c in f.calls():
+            if sx.callee_name(c) != 'is_digital_silence' or len(c[2]) < 3:
+                continue
+            root, path = sx.lvalue_root(sx.strip(c[2][0])) if sx.kind(sx.strip(c[2][0])) != 'param' else (sx.strip(c[2][0]), None)
+            a0 = sx.strip(c[2][0])
+            base = a0
+            while sx.kind(base) == 'bin' and base[1] in ('+', '-'):
+                base = sx.strip(base[2])
+            if sx.kind(base) != 'param':
+                continue     # an internal mono buffer (the analysis), not the caller's interleaved input
+            n += 1
+            ch = sx.strip(c[2][2])
+            inst = '%s:%s scans all input channels for digital silence' % (prog.config, f.name)
+            where = '%s:%s' % (f.file, sx.line(c))
+            rep.functions.add(f.name)
+            if sx.kind(ch) == 'field' and ch[3] == 'channels':
+                rep.holds('R20.7', inst, where, 'channel count `%s`' % sx.show(ch))
+            else:
+                rep.violated('R20.7', inst, where, 'the input buffer `%s` is interleaved by st->channels but is scanned with `%s`: part of every frame is not looked at, and a frame with audio there is declared silent (sent as DTX)' % (
+                    sx.show(a0), sx.show(ch)), key='%s:%s' % (f.name, sx.line(c)))
+    return n
+
+
+def r20_8(rep, prog):
+    """OPUS_GET_IN_DTX under SILK-driven DTX agrees with the packet decision of silk_Encode.
+    silk_Encode presets inDTX = useDTX for every channel, lets the VAD of each channel it ENCODES clear it unless
+    that channel's counter has passed the threshold, and sends no bytes iff inDTX[0] && (one channel || inDTX[1]);
+    the side channel is not encoded in a mid-only frame, so its flag stays set.  Hence
+        DTX packet  <=>  c0 && (nChannelsInternal == 1 || mid_only || c1)      (cN: counter N past the threshold)
+    The query arm is evaluated by interval analysis for all 16 valuations and compared with that table."""
+    from .. import absint, ctl
+    f = prog.fn('opus_encoder_ctl')
+    cf, arms = ctl.switch_arms(f)
+    arm = [a for a in arms if 'OPUS_GET_IN_DTX_REQUEST' in a.names]
+    inst = '%s:OPUS_GET_IN_DTX (SILK-driven) is true exactly when silk_Encode sends no bytes' % prog.config
+    if not arm:
+        rep.unresolved('R20.8', inst + ': no OPUS_GET_IN_DTX arm')
+        return
+    arm = arm[0]
+    # the out store(s)  *value = ...  and the arm's exit
+    stores = [(b, i, n) for b, i, n in arm.find(lambda n: n[0] == 'assign' and sx.kind(sx.strip(n[1])) == 'deref')]
+    if not stores:
+        rep.unresolved('R20.8', inst + ': no store through the out pointer')
+        return
+    outk = sx.key(sx.strip(sx.strip(stores[0][2][1])[1]))
+    thr = None
+    for b, i, n in arm.find(lambda n: n[0] == 'bin' and n[1] == '>=' and sx.kind(sx.strip(n[2])) == 'field' and sx.strip(n[2])[3] == 'noSpeechCounter'):
+        thr = sx.int_val(n[3])
+    if thr is None:
+        rep.unresolved('R20.8', inst + ': counter threshold not found')
+        return
+    exits = [b for b in arm.blocks if any(s2 not in arm.blocks for s2 in cf.succ[b])]
+    bad = []
+    ncase = 0
+    for c0 in (0, 1):
+        for c1 in (0, 1):
+            for nch in (1, 2):
+                for mo in (0, 1):
+                    def hook(an_, node, st_, c0=c0, c1=c1, nch=nch, mo=mo):
+                        n_ = sx.strip(node)
+                        if sx.kind(n_) == 'field':
+                            if n_[3] == 'noSpeechCounter':
+                                t = sx.show(n_)
+                                return absint.const((thr if c1 else thr - 1) if '[1]' in t else (thr if c0 else thr - 1))
+                            if n_[3] == 'nChannelsInternal':
+                                return absint.const(nch)
+                            if n_[3] == 'prev_decode_only_middle':
+                                return absint.const(mo)
+                            if n_[3] == 'useDTX':
+                                return absint.const(1)
+                            if n_[3] == 'prev_mode':
+                                return absint.const(1000)
+                        return None
+                    an = absint.Analyzer(prog, f, entry_state={}, start=arm.entry, call_summary=absint.inline_summary(prog), havoc_fields_on_call=False, load_hook=hook)
+                    vals = set()
+                    for b in exits:
+                        st = an.state_at(b, len(cf.blocks[b]['stmts']))
+                        if st is None:
+                            continue
+                        v = an.lookup(st, ('deref', outk), None)
+                        if v is None:
+                            continue      # a path that stores nothing (rejected NULL argument)
+                        vs = absint.values(v, 4)
+                        if vs is None:
+                            vals = None
+                            break
+                        vals |= set(vs)
+                    ncase += 1
+                    want = int(bool(c0 and (nch == 1 or mo or c1)))
+                    if vals is None or not vals:
+                        rep.unresolved('R20.8', inst + ': the value stored through the out pointer could not be evaluated (c0=%d c1=%d channels=%d mid_only=%d)' % (c0, c1, nch, mo))
+                        return
+                    if vals != {want}:
+                        bad.append((c0, c1, nch, mo, sorted(vals), want))
+    where = '%s:%s' % (f.file, arm.line())
+    if bad:
+        b0 = bad[0]
+        rep.violated('R20.8', inst, where, 'mid counter %s, side counter %s the threshold, %d internal channel(s), previous frame %s: the query answers %s, silk_Encode %s (%d of %d valuations differ)' % (
+            'past' if b0[0] else 'below', 'past' if b0[1] else 'below', b0[2], 'mid-only' if b0[3] else 'mid+side', b0[4], 'sends no bytes' if b0[5] else 'sends a packet', len(bad), ncase), key='in-dtx-table')
+    else:
+        rep.holds('R20.8', inst, where, '%d valuations of (mid counter, side counter, internal channels, mid-only)' % ncase)
+
+
 def check(rep, prog, tier):
+    r20_7(rep, prog)
+    r20_8(rep, prog)
     omin = r20_1(rep, prog)
     smin = r20_2(rep, prog)
     # both detectors use the same thresholds (SILK counts 20 ms frames, Opus counts Q1 ms)
